@@ -239,6 +239,10 @@ pub enum BpsvError {
     /// Column index is out of bounds
     #[error("Column index out of bounds: {0}")]
     ColumnIndexOutOfBounds(usize),
+
+    /// The row has no line form that a reader gives back as this row
+    #[error("Row cannot be written as a BPSV line: {0}")]
+    UnwritableRow(String),
 }
 
 #[cfg(test)]
